@@ -3,7 +3,7 @@
    extracted inductive types (converted in ocaml/sampler/driver.ml). *)
 From Coq Require Import List ZArith NArith Extraction ExtrOcamlBasic.
 From LMBase Require Import Res ListX IEEE.
-From LMSampler Require Import SamplerModel SamplerFloat SamplerF32.
+From LMSampler Require Import SamplerModel SamplerFloat SamplerF32 SamplerStream.
 
 Extraction Language OCaml.
 Extraction "sampler_model.ml"
@@ -14,4 +14,5 @@ Extraction "sampler_model.ml"
   freq_f32 background_bits_f32 expected_bg_bits_f32 check_bg_f32 check_state_f32 report_of_f32
   check_step_f32 check_C16_f32 obs_of_trace_f32
   exclude_sequence include_sequence update_holdout
-  support upd_possible pssm_of score_vec weight_vec wi_new draw info_content zoops_accept choice_of next_f next_g run_g word_ok scale_ok wi_sample uni_sample F64.lt pssm_shape.
+  support upd_possible pssm_of score_vec weight_vec wi_new draw info_content zoops_accept choice_of next_f next_g run_g word_ok scale_ok wi_sample uni_sample F64.lt pssm_shape
+  uniform_usize gen_index index_sample seeds_w starts_w holdout_w next_w run_w choices_w sampler_w.
